@@ -39,7 +39,7 @@ func (fc *fileCtx) instrumentAccesses() {
 		if write {
 			name = "W"
 		}
-		return &ast.StarExpr{X: fc.mcCall(name, &ast.UnaryExpr{Op: token.AND, X: e})}
+		return &ast.StarExpr{X: fc.mcCall(name, &ast.UnaryExpr{Op: token.AND, X: e}, fc.site(e))}
 	}
 	isPtr := func(e ast.Expr) bool {
 		t := fc.info.TypeOf(e)
@@ -185,7 +185,7 @@ func (fc *fileCtx) instrumentAccesses() {
 				if ctx == 2 {
 					name = "W"
 				}
-				e.X = fc.mcCall(name, e.X)
+				e.X = fc.mcCall(name, e.X, fc.site(e))
 			}
 		case *ast.IndexExpr:
 			if !has || tv.IsType() {
@@ -202,7 +202,7 @@ func (fc *fileCtx) instrumentAccesses() {
 				if ctx == 2 {
 					name = "MW"
 				}
-				e.X = fc.mcCall(name, e.X)
+				e.X = fc.mcCall(name, e.X, fc.site(e))
 			case *types.Slice:
 				if !tv.Addressable() {
 					return true
@@ -214,7 +214,7 @@ func (fc *fileCtx) instrumentAccesses() {
 		case *ast.CallExpr:
 			// delete(m, k) writes the map; range over a map is handled below
 			if fc.isBuiltin(e.Fun, "delete") && len(e.Args) == 2 {
-				e.Args[0] = fc.mcCall("MW", e.Args[0])
+				e.Args[0] = fc.mcCall("MW", e.Args[0], fc.site(e))
 			}
 		}
 		return true
@@ -224,7 +224,7 @@ func (fc *fileCtx) instrumentAccesses() {
 		if r, ok := n.(*ast.RangeStmt); ok {
 			if t := fc.info.TypeOf(origOf(r.X)); t != nil {
 				if _, isMap := t.Underlying().(*types.Map); isMap {
-					r.X = fc.mcCall("MR", r.X)
+					r.X = fc.mcCall("MR", r.X, fc.site(r))
 				}
 			}
 		}
@@ -237,7 +237,7 @@ func origOf(e ast.Expr) ast.Expr {
 	for {
 		switch x := e.(type) {
 		case *ast.StarExpr:
-			if call, ok := x.X.(*ast.CallExpr); ok && isMcCall(call) && len(call.Args) == 1 {
+			if call, ok := x.X.(*ast.CallExpr); ok && isMcCall(call) && len(call.Args) == 2 {
 				if u, ok := call.Args[0].(*ast.UnaryExpr); ok && u.Op == token.AND {
 					e = u.X
 					continue
@@ -245,7 +245,7 @@ func origOf(e ast.Expr) ast.Expr {
 			}
 			return e
 		case *ast.CallExpr:
-			if isMcCall(x) && len(x.Args) == 1 {
+			if isMcCall(x) && len(x.Args) == 2 {
 				e = x.Args[0]
 				continue
 			}
